@@ -38,6 +38,16 @@ type hookCtl struct {
 	targetHits   int
 	targetAction func(args []any)
 	targetFired  bool
+	// extra one-shot targets (depth-2 schedules: the action run beside a paused operation is itself paused)
+	extra []*hookTarget
+}
+
+type hookTarget struct {
+	point  string
+	n      int
+	hits   int
+	fired  bool
+	action func(args []any)
 }
 
 func newHookCtl() *hookCtl { return &hookCtl{counts: map[string]int64{}} }
@@ -75,6 +85,16 @@ func (h *hookCtl) handle(point string, args []any) {
 			act = h.targetAction
 		}
 	}
+	var act2 func(args []any)
+	for _, t := range h.extra {
+		if !t.fired && t.point == point && act == nil && act2 == nil {
+			t.hits++
+			if t.hits == t.n {
+				t.fired = true
+				act2 = t.action
+			}
+		}
+	}
 	obs := h.observers
 	h.mu.Unlock()
 	for _, o := range obs {
@@ -83,12 +103,31 @@ func (h *hookCtl) handle(point string, args []any) {
 	if act != nil {
 		act(args)
 	}
+	if act2 != nil {
+		act2(args)
+	}
+}
+
+// addTarget arms an additional one-shot action at the n-th hit of point, counted from now on.
+func (h *hookCtl) addTarget(point string, n int, action func(args []any)) *hookTarget {
+	t := &hookTarget{point: point, n: n, action: action}
+	h.mu.Lock()
+	h.extra = append(h.extra, t)
+	h.mu.Unlock()
+	return t
+}
+
+func (h *hookCtl) targetDone(t *hookTarget) bool {
+	h.mu.Lock()
+	defer h.mu.Unlock()
+	return t.fired
 }
 
 // setTarget arms a one-shot action at the n-th hit of point.
 func (h *hookCtl) setTarget(point string, n int, action func(args []any)) {
 	h.mu.Lock()
 	h.target, h.targetN, h.targetHits, h.targetFired, h.targetAction = point, n, 0, false, action
+	h.extra = nil
 	h.mu.Unlock()
 }
 
